@@ -246,6 +246,9 @@ func driverCtrl(c *Ctx) {
 				arg[i] ^= 0x5A // the caller's slice must not be retained
 			}
 			b := m.ToBytes()
+			if k%3 == 1 {
+				poisonDecode(g)
+			}
 			ev := decodeEvent(b)
 			ev["ev"] = "ctrlraw"
 			ev["hdr"] = bytesJ(h)
@@ -258,4 +261,14 @@ func driverCtrl(c *Ctx) {
 		}
 		ci++
 	}
+}
+
+// poisonDecode makes a decode that fails inside the decoder: nothing of it may be left behind for the next call.
+func poisonDecode(g *Gen) {
+	decodeEvent([][]byte{
+		{0, 0, 0, 15, 0, 1, 1, 1, 0, 0, 0, 0, 0, 1, 0x01, 0x02, 0xA5, 0x01, 0x07}, // list of two with one element
+		{0, 0, 0, 10, 0, 1, 0x81, 2, 0, 0, 0, 0, 0, 1},                            // wait bit on a reply
+		{0, 0, 0, 13, 0, 1, 1, 1, 0, 0, 0, 0, 0, 1, 0xB1, 0x04, 0x01},             // U4 cut short
+		{0, 0, 0, 12, 0, 1, 1, 1, 0, 0, 0, 0, 0, 1, 0xFD, 0x00},                   // undefined format code
+	}[g.pick(4)])
 }
